@@ -38,11 +38,12 @@ def arbitrary_watch():
     g.T = T
     g.readings = []
     g.mono = fresh_bool('monotone')
-    w = blank(T.StopWatch)
+    # built by the real constructor (whatever else it sets up stays set
+    # up), then moved into an arbitrary state satisfying INV
     if pick('has_duration', [False, True]):
-        w._duration = fresh_real('duration', lo=0)
+        w = T.StopWatch(fresh_real('duration', lo=0))
     else:
-        w._duration = None
+        w = T.StopWatch()
     state = pick('state', [None, STARTED, STOPPED])
     w._state = state
     g.t_prev = fresh_real('t_prev')       # the latest reading handed out
